@@ -115,7 +115,8 @@ def check_cases(report, work, vh, prelude, cases, predicates=None, family="eval"
                 mism.append((rec, run, rv))
     # classification of disagreements: re-execute once (determinism), then known findings
     if mism:
-        again = replay(work, vh, [{"id": i, "src": rec["src"], "inputs": [run["in"]]} for i, (rec, run, rv) in enumerate(mism)], tag=tag + "r")
+        extra = {c["id"]: {k: v for k, v in c.items() if k not in ("id", "src", "inputs")} for c in cases}
+        again = replay(work, vh, [dict(extra.get(rec["id"], {}), id=i, src=rec["src"], inputs=[run["in"]]) for i, (rec, run, rv) in enumerate(mism)], tag=tag + "r")
         for (rec, run, rv), rec2 in zip(mism, again):
             run2 = rec2.get("runs", [{}])[0]
             same = run2.get("out") == run["out"] and run2.get("err") == run.get("err") and run2.get("panic") == run.get("panic")
